@@ -411,6 +411,8 @@ func checkC12(r *Report) {
 	syntheticBoundRule(r, p, "C12.j/SYNTHETIC-BOUND-INERT")
 	nWG := wildcardGuardRule(r, p, "C12.l/WILDCARD-GUARD")
 	r.floor("C12.l/WILDCARD-GUARD", "calls of the matcher from methods of Constraint", nWG, 2)
+	nTA := clearOnAllPathsRule(r, p, "C12.n/TAGS-ALL-OR-NONE")
+	r.floor("C12.n/TAGS-ALL-OR-NONE", "spans made by opVersionToSpan after clearing the upper bound's tags", nTA, 5)
 	nUA := unboundedAboveRule(r, p, "C12.m/UNBOUNDED-ABOVE")
 	r.floor("C12.m/UNBOUNDED-ABOVE", "decisions of the PEP 440 comparator taken before the numbers", nUA, 1)
 	nOE := orderedExitRule(r, p, "C12.k/ORDERED-EXIT")
